@@ -278,8 +278,16 @@ func (m *ThrottleMon) hook(w *World) {
 		if n > m.maxSeen {
 			m.maxSeen = n
 		}
-		if lim := m.Limit * len(w.S.Throttles()); n > lim {
-			w.Fail("C19", "limit-exceeded", "%d throttled requests outstanding after %s was published; limit is %d x %d throttle(s)", n, r.CSubject, m.Limit, len(w.S.Throttles()))
+		// the number of throttles that may be in use: those seen, but no more than
+		// the scenario accounts for (one per system reset / per subscribe request)
+		nt := len(w.S.Throttles())
+		if m.Throttles != nil {
+			if k := m.Throttles(w); k < nt {
+				nt = k
+			}
+		}
+		if lim := m.Limit * nt; n > lim {
+			w.Fail("C19", "limit-exceeded", "%d throttled requests outstanding after %s was published; limit is %d x %d throttle(s) (%d throttle objects in use)", n, r.CSubject, m.Limit, nt, len(w.S.Throttles()))
 		}
 	})
 	w.MQ.mu.Unlock()
